@@ -28,7 +28,7 @@ TIMEOUT = {'quick': 1500, 'thorough': 10800}
 WORKERS = 10
 ARRANGEMENTS = ('same-dir', 'subdirs-I', 'other-cwd-relative', 'absolute', 'include-twice', 'dotdot-include',
                 'dot-slash-include', 'absolute-include', 'I-subpath-nested', 'files-named-like-types',
-                'declaration-less-file')
+                'declaration-less-file', 'two-dirs-mixed')
 
 
 def shards(ctx):
@@ -158,6 +158,8 @@ def run_case(acc, audit, wd, idx, sch, rng, arrangement, want_cpp, seed):
     for i, (fn, part, incs) in enumerate(files):
         subdir[fn] = ('dir%d' % (i % 2) if arrangement == 'subdirs-I' else
                       'd%d' % i if arrangement == 'dotdot-include' else
+                      # two directories; a file names siblings barely and the others as ../dK/f, the others first
+                      'd%d' % (i % 2) if arrangement == 'two-dirs-mixed' else
                       # the last file lives in app/ and names its includes "proto/<file>", found through -I inc; the
                       # other files are siblings in inc/proto/ and include each other by bare name; app/ goes first
                       ('app' if i == len(files) - 1 else 'inc/proto') if arrangement == 'I-subpath-nested' else '')
@@ -175,6 +177,9 @@ def run_case(acc, audit, wd, idx, sch, rng, arrangement, want_cpp, seed):
                 pre = lambda f: 'proto/' + f                                   # noqa
             else:
                 pre = lambda f: f                                              # noqa
+        elif arrangement == 'two-dirs-mixed':
+            pre = lambda f, sub=sub: f if subdir[f] == sub else '../%s/%s' % (subdir[f], f)   # noqa
+            incs = sorted(incs, key=lambda f, sub=sub: subdir[f] == sub)
         elif arrangement == 'dotdot-include':
             pre = lambda f: '../%s/%s' % (subdir[f], f)                      # noqa
         elif arrangement == 'dot-slash-include':
